@@ -37,7 +37,7 @@ class C13(Prop):
         self.members = [Days[n] for n in DAY_NAMES]
 
     def cases(self, tier, seed, shard, nshards):
-        per = {"quick": 8, "thorough": 60}[tier]
+        per = {"quick": 8, "thorough": 300}[tier]
         i = 0
         for zone in ZONES:
             r = env.rng("C13", seed, zone)
